@@ -100,6 +100,16 @@ func (s *Server) Close() {
 	s.mu.Unlock()
 }
 
+// DropAll hangs up on every connected replica and keeps serving new ones.
+func (s *Server) DropAll() {
+	s.mu.Lock()
+	for _, c := range s.conns {
+		c.Close()
+	}
+	s.conns = nil
+	s.mu.Unlock()
+}
+
 // Shutdown also releases the port.
 func (s *Server) Shutdown() {
 	s.Close()
